@@ -1015,7 +1015,11 @@ class Sanitize:
             for combo in itertools.product(alphabet, repeat=n):
                 yield dict(name=''.join(combo))
         for extra in ('a/b.txt', '..\\..\\etc', 'x\x00y.mp4', 'CON', 'NUL.txt', ' . ', '....', 'a.\x01\x02', '/', 'a' * 300 + '.b/c',
-                      '\x00', '.\x00', '\x1f.\x1f', 'a.b.c/d', 'normal name.mp4'):
+                      '\x00', '.\x00', '\x1f.\x1f', 'a.b.c/d', 'normal name.mp4',
+                      # legal POSIX names written with look-alike code points: whatever the function does to them, the result must
+                      # not contain a separator (a compatibility normalisation applied AFTER the filter would produce one)
+                      '\u2025\uff0f\u2025\uff0fetc\uff0fpasswd', 'a\uff3cb', 'x\ufe68y.txt', '\u2105.doc', 'a\u2215b', 'cafe\u0301.mp4',
+                      '\uff0e\uff0e\uff0f', '\u2024\u2024/', 'ﬁle\uff1aname', '\uff0f', '\ufe68'):
             yield dict(name=extra)
 
 
